@@ -1,4 +1,4 @@
 CONSTANTS MaxAttempts = 8 Family = "small" Tier = "quick"
 SPECIFICATION Spec
-INVARIANTS Terminates DoneStructural Emit
+INVARIANTS Terminates DoneStructural DoneAllLawsWithoutRestart Emit
 PROPERTY EventuallyStops
